@@ -96,21 +96,27 @@ def r21b(F):
     terr = {b for b, j, pl, rv, m in fn.assigns() if pl["l"] == 0 and not pl["p"] and rv["k"] == "agg" and rv.get("adt") == SHAPE and rv.get("variant") == "TypeErr"}
     exits = set(cfg.exits(fn))
     forms = [("Copy", {}), ("Call", {}), ("Simple", {"ucglib::ast::Value": "Symbol"}), ("Simple", {"ucglib::ast::Value": "Str"})]
-    for left, extra_left in (("Tuple", {}), ("Import", {"ucglib::ast::ImportShape": "Resolved"})):
-        for form, extra in forms:
+    NARROWING = "ucglib::ast::NarrowingShape"
+    lefts = [("Tuple", {}, forms), ("Import", {"ucglib::ast::ImportShape": "Resolved"}, forms),
+             # a call or copy through a field of a value whose shape is only partly known must be accepted as well: the value
+             # may be a tuple at run time (an element of a list literal, a select result, a parameter)
+             ("Hole", {}, forms[:2]), ("Narrowed", {NARROWING: "Any"}, forms[:2]), ("Narrowed", {NARROWING: "Narrowed"}, forms[:2])]
+    for left, extra_left, fs in lefts:
+        for form, extra in fs:
             fixed = {SHAPE: left, EXPR: form}
             fixed.update(extra)
             fixed.update(extra_left)
             def scrut(e, pl, b):
                 # left_shape is parameter 2, right_expr parameter 3 (the match is on the tuple of both)
                 ps = {l[1] for l in o.at(pl, b) if l[0] == "param"}
-                if e in (SHAPE, "ucglib::ast::ImportShape"):
+                if e in (SHAPE, "ucglib::ast::ImportShape", NARROWING):
                     return 2 in ps and 3 not in ps
                 return 3 in ps and 2 not in ps
             reach = variants.reach_multi(F, fn, 0, fixed, scrutinee_ok=scrut, removed=terr)
             ok = bool(reach & exits)
             label = form + ("(%s)" % list(extra.values())[0] if extra else "")
-            r.inst("%s.%s" % (left, label), fn.where(), ok, "accepted (or delegated)" if ok else
+            lname = left + ("[%s]" % list(extra_left.values())[0] if left == "Narrowed" else "")
+            r.inst("%s.%s" % (lname, label), fn.where(), ok, "accepted (or delegated)" if ok else
                    "`<%s>.%s` always yields \"Invalid field selector\" in the checker although the VM evaluates it" % (left.lower(), {"Call": "f(..)", "Copy": "inner{..}"}.get(form, form)))
     return r
 
@@ -181,4 +187,41 @@ def r21h(F):
     return r
 
 
-RULES = [r21a, r21b, r21c, r21h]
+def r21p(F):
+    r = RuleResult("R21p", "re-anchoring a shape changes its position only",
+                   "Shape::with_pos returns, for every input variant, the same variant, and for lists and narrowed shapes the same kind "
+                   "of knowledge (Any stays Any, a candidate list stays that candidate list): with_pos is applied to function results "
+                   "and symbol uses, and List(Any) turned into List(Narrowed([])) is rejected by copy, call, not and the functional "
+                   "operators", floor=10, exhaustive=True)
+    NARROWING = "ucglib::ast::NarrowingShape"
+    fn = F.fn("ucglib::ast::Shape::with_pos")
+    o = Origins(fn)
+    aggs = [(b, rv) for b, j, pl, rv, m in fn.assigns() if rv["k"] == "agg" and rv.get("adt") in (SHAPE, NARROWING)]
+    def scrut(e, pl, b):
+        return any(l == ("param", 1) for l in o.at(pl, b))
+    for v in F.variants(SHAPE):
+        reach = variants.reach_multi(F, fn, 0, {SHAPE: v}, scrutinee_ok=scrut)
+        built = {rv.get("variant") for b, rv in aggs if b in reach and rv.get("adt") == SHAPE}
+        # an arm may hand the input back (`self.clone()`): then nothing is built
+        ok = built <= {v}
+        r.inst("variant:%s" % v, fn.where(), ok, "stays %s" % v if ok else "with_pos turns a %s shape into %s" % (v, sorted(built - {v})))
+    for v in ("List", "Narrowed"):
+        for nv in F.variants(NARROWING):
+            other = [x for x in F.variants(NARROWING) if x != nv]
+            reach = variants.reach_multi(F, fn, 0, {SHAPE: v, NARROWING: nv}, scrutinee_ok=scrut)
+            built = {rv.get("variant") for b, rv in aggs if b in reach and rv.get("adt") == NARROWING}
+            # constructors called on the way (NarrowedShape::new_with_pos builds a candidate list)
+            for b, t in fn.calls():
+                c = callee(t)
+                if b in reach and c.startswith("ucglib::ast::") and c in F.fns and c != fn.name:
+                    built |= {rv.get("variant") for b2, j2, pl2, rv, m2 in F.fn(c).assigns() if rv["k"] == "agg" and rv.get("adt") == NARROWING}
+            ok = not (built & set(other))
+            r.inst("knowledge:%s[%s]" % (v, nv), fn.where(), ok, "%s stays %s" % (v, nv) if ok else
+                   "with_pos rebuilds a %s(%s) as %s(%s): `%s` becomes a shape the copy / call / not / functional-operator code rejects"
+                   % (v, nv, v, sorted(built & set(other))[0], "unconstrained" if nv == "Any" else "a candidate list"))
+    return r
+
+
+from . import c09 as _c09
+
+RULES = [r21a, r21b, r21c, r21h, r21p, _c09.r25p]
